@@ -224,25 +224,59 @@ def parseEndorsersSig (s : String) : List (Nat × Bytes) :=
     | [e, sg] => (Proto.natOf e, Proto.bytesOf sg)
     | _ => (0, [])
 
-/-- all permutations (used for at most 6 endorsers) -/
-def insertEverywhere (x : Nat) : List Nat → List (List Nat)
-  | [] => [[x]]
-  | y :: r => (x :: y :: r) :: (insertEverywhere x r).map (y :: ·)
-def perms : List Nat → List (List Nat)
-  | [] => [[]]
-  | x :: r => (perms r).flatMap (insertEverywhere x)
+/-! Exact reachability of answers over all map orders. Whether visiting endorser `e` after the set `S` of fully visited
+   endorsers makes the function return depends only on `S` (the counters are sums over `S`), so a breadth-first walk over
+   the subsets that can be visited completely without a return enumerates every answer some iteration order produces. -/
 
-def rotations (l : List Nat) : List (List Nat) := (List.range l.length).map fun i => l.drop i ++ l.take i
+def dedupLists (l : List (List Nat)) : List (List Nat) := l.foldl (fun acc x => if acc.contains x then acc else acc ++ [x]) []
 
-/-- candidate iteration orders: everything for small maps, otherwise the endorsers supporting `p` first / last,
-    in all rotations -/
-def orders (c : Cand) (p : Nat) (forEmpty : Bool) : List (List Nat) :=
-  let keys := sortNat (c.esigs.map (·.1))
-  if keys.length ≤ 6 then perms keys
+/-- (seen, empty) after visiting all endorsers of `S` without a return -/
+def edState (c : Cand) (S : List Nat) : List Nat × Nat :=
+  (visits c.esigs S).foldl (fun (st : List Nat × Nat) x => if x.2.forEmpty then (st.1, st.2 + 1) else (x.2.proposer :: st.1, st.2)) ([], 0)
+
+def edReachLoop (c : Cand) (C : Nat) (keys : List Nat) : Nat → List (List Nat) → List (Nat × Bool) → List (Nat × Bool)
+  | 0, _, acc => acc
+  | fuel + 1, frontier, acc =>
+    let step := frontier.foldl (fun (st : List (List Nat) × List (Nat × Bool)) S =>
+      let (seen, em) := edState c S
+      (keys.filter (fun e => !S.contains e)).foldl (fun (st : List (List Nat) × List (Nat × Bool)) e =>
+        match edScan C (visits c.esigs [e]) seen em with
+        | some o => (st.1, if st.2.contains o then st.2 else st.2 ++ [o])
+        | none => (st.1 ++ [insNat e S], st.2)) st) ([], acc)
+    edReachLoop c C keys fuel (dedupLists step.1) step.2
+
+def edReach (c : Cand) (C : Nat) : List (Nat × Bool) :=
+  if c.esigs.length < C + 1 then []
   else
-    let sup := keys.filter fun e => ((lookup c.esigs e).getD []).any fun s => if forEmpty then s.forEmpty else (!s.forEmpty && s.proposer == p)
-    let rest := keys.filter fun e => !sup.contains e
-    (rotations sup).flatMap fun a => (rotations rest).flatMap fun b => [a ++ b, a.reverse ++ b, b ++ a]
+    let keys := sortNat (c.esigs.map (·.1))
+    edReachLoop c C keys (keys.length + 1) [[]] []
+
+/-- (emptyCnt, seen) of the commitDone fallback after visiting all endorsers of `S` without reaching the bound -/
+def cdState (c : Cand) (isEnd : Nat → Bool) (C' : Nat) (S : List Nat) : Nat × List Nat :=
+  S.foldl (fun (st : Nat × List Nat) e =>
+    let eSigs := (lookup c.esigs e).getD []
+    let em := if !isEnd e then st.1 + (eSigs.filter (·.forEmpty)).length else st.1
+    let r := cdInner C' eSigs em st.2
+    (r.1, r.2.1)) (0, [])
+
+def cdReachLoop (c : Cand) (isEnd : Nat → Bool) (C' : Nat) (keys : List Nat) : Nat → List (List Nat) → List (Nat × Bool) → List (Nat × Bool)
+  | 0, _, acc => acc
+  | fuel + 1, frontier, acc =>
+    let step := frontier.foldl (fun (st : List (List Nat) × List (Nat × Bool)) S =>
+      let (em, seen) := cdState c isEnd C' S
+      (keys.filter (fun e => !S.contains e)).foldl (fun (st : List (List Nat) × List (Nat × Bool)) e =>
+        match cdScan c.esigs isEnd C' [e] em seen with
+        | some (p, emptyCnt) => let o := (p, decide (emptyCnt > C')); (st.1, if st.2.contains o then st.2 else st.2 ++ [o])
+        | none => (st.1 ++ [insNat e S], st.2)) st) ([], acc)
+    cdReachLoop c isEnd C' keys fuel (dedupLists step.1) step.2
+
+def cdReach (c : Cand) (isEnd : Nat → Bool) (C N : Nat) : List (Nat × Bool) :=
+  match getCommitConsensus c.commitMsgs C N with
+  | some r => [r]
+  | none =>
+    let C' := (N + 4294967296 - 1 - C) % 4294967296
+    let keys := sortNat (c.esigs.map (·.1))
+    cdReachLoop c isEnd C' keys (keys.length + 1) [[]] []
 
 def parseGccMsg (t : String) : CommitMsg :=
   match t.splitOn ":" with
@@ -277,8 +311,7 @@ def step (s : St) (toks : List String) : St × String :=
     (s, "done=" ++ b01 (endorseDone cand order (Proto.natOf c)).isSome)
   | ["edcheck", blk, c, p, e] =>
     let cand := getCand s (Proto.natOf blk)
-    let want := some (Proto.natOf p, e == "1")
-    (s, if (orders cand (Proto.natOf p) (e == "1")).any (fun o => endorseDone cand o (Proto.natOf c) == want) then "possible" else "impossible")
+    (s, if (edReach cand (Proto.natOf c)).contains (Proto.natOf p, e == "1") then "possible" else "impossible")
   | ["cdone", blk, c, n] =>
     let cand := getCand s (Proto.natOf blk)
     if !hasCand s (Proto.natOf blk) then (s, "none") else
@@ -289,9 +322,7 @@ def step (s : St) (toks : List String) : St × String :=
       (s, "fallback done=" ++ b01 (commitDone cand order (fun x => s.isEnd.contains x) (Proto.natOf c) (Proto.natOf n)).isSome)
   | ["cdcheck", blk, c, n, p, e] =>
     let cand := getCand s (Proto.natOf blk)
-    let want := some (Proto.natOf p, e == "1")
-    let os := orders cand (Proto.natOf p) false ++ (if cand.esigs.length ≤ 6 then [] else orders cand (Proto.natOf p) true)
-    (s, if os.any (fun o => commitDone cand o (fun x => s.isEnd.contains x) (Proto.natOf c) (Proto.natOf n) == want) then "possible" else "impossible")
+    (s, if (cdReach cand (fun x => s.isEnd.contains x) (Proto.natOf c) (Proto.natOf n)).contains (Proto.natOf p, e == "1") then "possible" else "impossible")
   | "gcc" :: c :: n :: msgs =>
     match getCommitConsensus (msgs.map parseGccMsg) (Proto.natOf c) (Proto.natOf n) with
     | some (p, e) => (s, s!"p={p} e={b01 e}")
